@@ -1024,3 +1024,337 @@ Proof.
   refine (conj H1 (conj H2 (conj (C08_read_spelling_includes_off _ _ _ _ _ H1) (conj (C08_read_spelling_includes_off _ _ _ _ _ H2) _)))).
   split; vm_compute; reflexivity.
 Qed.
+
+(* ================================================================================================== *)
+(* added from Properties/C08_add.v (2026-10-01)                                              *)
+(* ================================================================================================== *)
+(* C08 (addition): the WRITER under the weaker side condition write_safe'.  To be appended to Properties/C08.v. *)
+From Coq Require Import String.
+From Coq Require Import NArith ZArith List Bool.
+From DictIO Require Import Chars Str Value Scalar Lexer MiscSpec CliProofs KeyPath SDict Layout TokParser Reader.
+From DictIO Require Parse.
+From DictIO Require Import CounterBase CounterLex CounterParse CounterProofs CounterRead CounterWrite CounterWriteWeak.
+Import ListNotations.
+
+(* ---- the condition ------------------------------------------------------------------------------------------ *)
+(* write_safe (above) asks that NO semicolon in a key, string / float leaf, comment text or include name is directly followed
+   by an upper case letter or a digit; that excludes ordinary files (c08w_text below).  write_safe' s (CounterWriteWeak.v)
+   only looks at semicolons that directly follow a placeholder-shaped word.  With
+
+     psemi x :  x has no factor   W d^{>=6} ;^{>=1} [A-Z0-9]     (W one of BLOCKCOMMENT INCLUDE LINECOMMENT, the words the
+                                                                  formatter searches for; d a digit)
+     hd_ok x :  x does not begin with   ;^{>=0} [A-Z0-9]
+
+   write_safe' s  =  psemi (native_body (sd_data s))                    (the text laid out from the data, before re-insertion)
+                  && every block comment text t:   hd_ok t, psemi t, the last character of t is not in [A-Z0-9]
+                  && every include entry:          id < 10^6, psemi (format_string name)
+                  && every line comment entry:     id < 10^6, hd_ok t, psemi t.
+   foam_write_safe' is the same with the body and the name formatting of the Foam formatter. *)
+Theorem C08_write_safe_weaker : forall s, write_safe s = true -> write_safe' s = true /\ foam_write_safe' s = true.
+Proof. intros s H. split; [exact (write_safe_weaker s H)|exact (foam_write_safe_weaker s H)]. Qed.
+Print Assumptions C08_write_safe_weaker.
+
+Theorem C08_writer_equivariant_weak : forall d s, write_safe' s = true ->
+  to_string_sd (rename_sd d s) = rename_str d (to_string_sd s).
+Proof. exact writer_equivariant'. Qed.
+Print Assumptions C08_writer_equivariant_weak.
+
+Theorem C08_foam_writer_equivariant_weak : forall d s, foam_write_safe' s = true ->
+  foam_to_string_sd (rename_sd d s) = rename_str d (foam_to_string_sd s).
+Proof. exact foam_writer_equivariant'. Qed.
+Print Assumptions C08_foam_writer_equivariant_weak.
+
+Theorem C08_writer_counter_independent_weak : forall d s, write_safe' s = true -> cleanb (to_string_sd s) = true ->
+  to_string_sd (rename_sd d s) = to_string_sd s.
+Proof. exact writer_invariant'. Qed.
+Print Assumptions C08_writer_counter_independent_weak.
+
+(* the reviewer's file: a semicolon followed by an upper case letter in a comment, by a digit in a string *)
+Definition c08w_text : str := of_string "// see a;B
+k 'x;1 y';
+m 2;
+".
+Definition c08w_root : str := of_string "/d/main.dict".
+Definition c08w_fs : fsys := [(c08w_root, FNative c08w_text)].
+Definition c08w_sd (r : res (sdict * Z)) : sdict := match r with Ok (s, _) => s | Raise _ => sd_empty end.
+
+Example C08_writer_equivariant_weak_nonvacuous :
+  let s := c08w_sd (read_plain c08w_fs c08w_root false true (-1)) in
+  write_safe s = false /\ write_safe' s = true /\ foam_write_safe' s = true /\ cleanb (to_string_sd s) = true /\
+  to_string_sd (rename_sd 6 s) = rename_str 6 (to_string_sd s) /\
+  to_string_sd (rename_sd 6 s) = to_string_sd s /\
+  foam_to_string_sd (rename_sd 6 s) = rename_str 6 (foam_to_string_sd s) /\
+  rename_sd 6 s = c08w_sd (read_plain c08w_fs c08w_root false true 5) /\
+  map fst (sd_lc s) = [0]%N /\ map fst (sd_lc (rename_sd 6 s)) = [6]%N /\
+  contains (of_string "// see a;B
+k                             'x;1 y';
+m                             2;
+") (to_string_sd s) = true.
+Proof.
+  cbv zeta.
+  assert (H1 : write_safe' (c08w_sd (read_plain c08w_fs c08w_root false true (-1))) = true) by (vm_compute; reflexivity).
+  assert (H2 : cleanb (to_string_sd (c08w_sd (read_plain c08w_fs c08w_root false true (-1)))) = true) by (vm_compute; reflexivity).
+  assert (H3 : foam_write_safe' (c08w_sd (read_plain c08w_fs c08w_root false true (-1))) = true) by (vm_compute; reflexivity).
+  split; [vm_compute; reflexivity|].
+  refine (conj H1 (conj H3 (conj H2 (conj (C08_writer_equivariant_weak _ _ H1) (conj (C08_writer_counter_independent_weak _ _ H1 H2)
+           (conj (C08_foam_writer_equivariant_weak _ _ H3) _)))))).
+  repeat split; vm_compute; reflexivity.
+Qed.
+
+(* every side condition of the theorems above (write_side, write_sd_side, pm_side) implies its weak counterpart *)
+Theorem C08_side_conditions_weaker :
+  (forall r, write_side to_string_sd r = true -> write_side' false r = true) /\
+  (forall r, write_side foam_to_string_sd r = true -> write_side' true r = true) /\
+  (forall foam s, write_sd_side foam s = true -> write_sd_side' foam s = true) /\
+  (forall fs src output c, pm_side fs src output c = true -> pm_side' fs src output c = true).
+Proof. exact (conj write_side_weaker (conj foam_write_side_weaker (conj write_sd_side_weaker pm_side_weaker))). Qed.
+Print Assumptions C08_side_conditions_weaker.
+
+(* ---- the text written after a read ------------------------------------------------------------------------------ *)
+(* fmt_sd foam = foam_to_string_sd / to_string_sd.  write_side' foam r (a boolean on the FIRST read): its result is
+   write_safe' (foam_write_safe') and the text written from it contains no placeholder name.  Neither half follows from the
+   reader's side conditions alone: C08_written_placeholder_finding (above) for the second,
+   C08_write_after_read_source_finding (below) for the first. *)
+Theorem C08_write_after_read_counter_independent_weak : forall fs root text foam c1 c2,
+  counter_ok c1 -> counter_ok c2 ->
+  fs_lookup (norm_path root) fs = Some (FNative text) ->
+  cleanb text = true -> cleanb (dir_of root) = true ->
+  parse_side (lex true (dir_of root) c1 text) = true ->
+  write_side' foam (read_plain fs root false true c1) = true ->
+  written_after (fmt_sd foam) (read_plain fs root false true c2) = written_after (fmt_sd foam) (read_plain fs root false true c1).
+Proof. exact write_after_read_noinc'. Qed.
+Print Assumptions C08_write_after_read_counter_independent_weak.
+
+Theorem C08_write_after_read_includes_counter_independent_weak : forall fs root foam c1 c2,
+  counter_ok c1 -> counter_ok c2 -> fs_ok fs = true -> cleanb root = true ->
+  write_side' foam (read_plain fs root true true c1) = true ->
+  written_after (fmt_sd foam) (read_plain fs root true true c2) = written_after (fmt_sd foam) (read_plain fs root true true c1).
+Proof. exact write_after_read_inc'. Qed.
+Print Assumptions C08_write_after_read_includes_counter_independent_weak.
+
+(* the side condition does not depend on the counter under which it is evaluated ... *)
+Theorem C08_write_side_weak_counter_independent : forall fs root foam c1 c2,
+  counter_ok c1 -> counter_ok c2 -> fs_ok fs = true -> cleanb root = true ->
+  write_side' foam (read_plain fs root true true c2) = write_side' foam (read_plain fs root true true c1).
+Proof. exact write_side'_counter_independent. Qed.
+Print Assumptions C08_write_side_weak_counter_independent.
+
+(* ... so it can be evaluated once, at the fresh counter: source_write_ok foam fs root is a boolean on the files only *)
+Theorem C08_write_after_read_includes_source_condition : forall fs root foam c1 c2,
+  counter_ok c1 -> counter_ok c2 -> fs_ok fs = true -> cleanb root = true ->
+  source_write_ok foam fs root = true ->
+  written_after (fmt_sd foam) (read_plain fs root true true c2) = written_after (fmt_sd foam) (read_plain fs root true true c1).
+Proof. exact write_after_read_inc_fresh. Qed.
+Print Assumptions C08_write_after_read_includes_source_condition.
+
+(* non-vacuity: the reviewer's file at the counters -1, 5 and 999998 (its ids: 0,1 / 6,7 / 999999,0), native and Foam *)
+Example C08_write_after_read_counter_independent_weak_nonvacuous :
+  counter_ok (-1) /\ counter_ok 5 /\ counter_ok 999998 /\
+  cleanb c08w_text = true /\ parse_side (lex true (dir_of c08w_root) (-1) c08w_text) = true /\
+  write_side to_string_sd (read_plain c08w_fs c08w_root false true (-1)) = false /\
+  write_side' false (read_plain c08w_fs c08w_root false true (-1)) = true /\
+  write_side' true (read_plain c08w_fs c08w_root false true (-1)) = true /\
+  written_after to_string_sd (read_plain c08w_fs c08w_root false true 5) = written_after to_string_sd (read_plain c08w_fs c08w_root false true (-1)) /\
+  written_after to_string_sd (read_plain c08w_fs c08w_root false true 999998) = written_after to_string_sd (read_plain c08w_fs c08w_root false true (-1)) /\
+  written_after foam_to_string_sd (read_plain c08w_fs c08w_root false true 999998) = written_after foam_to_string_sd (read_plain c08w_fs c08w_root false true (-1)) /\
+  c08w_sd (read_plain c08w_fs c08w_root false true 999998) <> c08w_sd (read_plain c08w_fs c08w_root false true (-1)) /\
+  (map fst (sd_lc (c08w_sd (read_plain c08w_fs c08w_root false true 999998))), map fst (sd_lc (c08w_sd (read_plain c08w_fs c08w_root false true 5)))) = ([999999]%N, [6]%N) /\
+  (exists txt, written_after to_string_sd (read_plain c08w_fs c08w_root false true (-1)) = Ok txt /\ List.length txt = 315%nat).
+Proof.
+  assert (H1 : counter_ok (-1)) by (unfold counter_ok; split; discriminate).
+  assert (H2 : counter_ok 5) by (unfold counter_ok; split; discriminate).
+  assert (H3 : counter_ok 999998) by (unfold counter_ok; split; discriminate).
+  assert (Hf : fs_lookup (norm_path c08w_root) c08w_fs = Some (FNative c08w_text)) by (vm_compute; reflexivity).
+  assert (Hd : cleanb (dir_of c08w_root) = true) by (vm_compute; reflexivity).
+  assert (Ht : cleanb c08w_text = true) by (vm_compute; reflexivity).
+  assert (Hs : parse_side (lex true (dir_of c08w_root) (-1) c08w_text) = true) by (vm_compute; reflexivity).
+  assert (Hw : write_side' false (read_plain c08w_fs c08w_root false true (-1)) = true) by (vm_compute; reflexivity).
+  assert (Hv : write_side' true (read_plain c08w_fs c08w_root false true (-1)) = true) by (vm_compute; reflexivity).
+  refine (conj H1 (conj H2 (conj H3 (conj Ht (conj Hs (conj _ (conj Hw (conj Hv
+           (conj (C08_write_after_read_counter_independent_weak _ _ _ false _ _ H1 H2 Hf Ht Hd Hs Hw)
+           (conj (C08_write_after_read_counter_independent_weak _ _ _ false _ _ H1 H3 Hf Ht Hd Hs Hw)
+           (conj (C08_write_after_read_counter_independent_weak _ _ _ true _ _ H1 H3 Hf Ht Hd Hs Hv) _))))))))))).
+  - vm_compute. reflexivity.
+  - split; [vm_compute; discriminate|]. split; [vm_compute; reflexivity|]. eexists. split; vm_compute; reflexivity.
+Qed.
+
+(* with include merging: both files carry semicolons followed by upper case letters / digits *)
+Definition c08w_main : str := of_string "// see a;B
+#include 'sub.dict'
+k 'x;1 y';
+m 2;
+".
+Definition c08w_sub : str := of_string "// sub c;D 9;8
+s 'p;Q';
+".
+Definition c08w_fs2 : fsys := [(c08w_root, FNative c08w_main); (of_string "/d/sub.dict", FNative c08w_sub)].
+
+Example C08_write_after_read_includes_counter_independent_weak_nonvacuous :
+  fs_ok c08w_fs2 = true /\ cleanb c08w_root = true /\
+  write_side to_string_sd (read_plain c08w_fs2 c08w_root true true (-1)) = false /\
+  source_write_ok false c08w_fs2 c08w_root = true /\ source_write_ok true c08w_fs2 c08w_root = true /\
+  written_after to_string_sd (read_plain c08w_fs2 c08w_root true true 5) = written_after to_string_sd (read_plain c08w_fs2 c08w_root true true 999998) /\
+  written_after to_string_sd (read_plain c08w_fs2 c08w_root true true 999998) = written_after to_string_sd (read_plain c08w_fs2 c08w_root true true (-1)) /\
+  written_after foam_to_string_sd (read_plain c08w_fs2 c08w_root true true 999998) = written_after foam_to_string_sd (read_plain c08w_fs2 c08w_root true true (-1)) /\
+  write_side' false (read_plain c08w_fs2 c08w_root true true 999998) = write_side' false (read_plain c08w_fs2 c08w_root true true (-1)) /\
+  (map fst (sd_lc (c08w_sd (read_plain c08w_fs2 c08w_root true true 999998))), map fst (sd_lc (c08w_sd (read_plain c08w_fs2 c08w_root true true (-1))))) =
+    ([999999; 2]%N, [0; 3]%N) /\
+  (exists txt, written_after to_string_sd (read_plain c08w_fs2 c08w_root true true (-1)) = Ok txt /\
+               contains (of_string "// sub c;D 9;8") txt = true /\ contains (of_string "'p;Q';") txt = true /\ contains (of_string "// see a;B") txt = true).
+Proof.
+  assert (H1 : counter_ok (-1)) by (unfold counter_ok; split; discriminate).
+  assert (H2 : counter_ok 5) by (unfold counter_ok; split; discriminate).
+  assert (H3 : counter_ok 999998) by (unfold counter_ok; split; discriminate).
+  assert (Hf : fs_ok c08w_fs2 = true) by (vm_compute; reflexivity).
+  assert (Hr : cleanb c08w_root = true) by (vm_compute; reflexivity).
+  assert (Hw : source_write_ok false c08w_fs2 c08w_root = true) by (vm_compute; reflexivity).
+  assert (Hv : source_write_ok true c08w_fs2 c08w_root = true) by (vm_compute; reflexivity).
+  refine (conj Hf (conj Hr (conj _ (conj Hw (conj Hv
+           (conj (C08_write_after_read_includes_source_condition _ _ false _ _ H3 H2 Hf Hr Hw)
+           (conj (C08_write_after_read_includes_counter_independent_weak _ _ false _ _ H1 H3 Hf Hr Hw)
+           (conj (C08_write_after_read_includes_counter_independent_weak _ _ true _ _ H1 H3 Hf Hr Hv)
+           (conj (C08_write_side_weak_counter_independent _ _ false _ _ H1 H3 Hf Hr) _))))))))).
+  - vm_compute. reflexivity.
+  - split; [vm_compute; reflexivity|]. eexists. split; [vm_compute; reflexivity|]. repeat split; vm_compute; reflexivity.
+Qed.
+
+(* ---- DictWriter.write and DictParser.parse (mode w, order off) ---------------------------------------------------- *)
+Theorem C08_write_sd_counter_independent_weak : forall fs foam target d s c c',
+  write_sd_side' foam s = true ->
+  text_of (Parse.write_sd fs foam target false false (rename_sd d s) c') = text_of (Parse.write_sd fs foam target false false s c).
+Proof. exact write_sd_counter_independent'. Qed.
+Print Assumptions C08_write_sd_counter_independent_weak.
+
+Theorem C08_parse_counter_independent_written_weak : forall fs src output c1 c2,
+  counter_ok c1 -> counter_ok c2 -> fs_ok fs = true -> cleanb src = true ->
+  pm_side' fs src output c1 = true ->
+  pm_out (Parse.parse_model fs src true false false true [] output c2) = pm_out (Parse.parse_model fs src true false false true [] output c1).
+Proof. exact parse_model_counter_independent'. Qed.
+Print Assumptions C08_parse_counter_independent_written_weak.
+
+Example C08_parse_counter_independent_written_weak_nonvacuous :
+  let s := c08w_sd (read_plain c08w_fs2 c08w_root true true (-1)) in
+  fs_ok c08w_fs2 = true /\ cleanb c08w_root = true /\
+  pm_side c08w_fs2 c08w_root None (-1) = false /\ pm_side' c08w_fs2 c08w_root None (-1) = true /\
+  pm_side' c08w_fs2 c08w_root (Some (of_string "foam")) (-1) = true /\
+  write_sd_side false s = false /\ write_sd_side' false s = true /\
+  text_of (Parse.write_sd c08w_fs2 false (of_string "/d/out.dict") false false (rename_sd 999999 s) 2) =
+  text_of (Parse.write_sd c08w_fs2 false (of_string "/d/out.dict") false false s 4) /\
+  rename_sd 999999 s = c08w_sd (read_plain c08w_fs2 c08w_root true true 999998) /\
+  pm_out (Parse.parse_model c08w_fs2 c08w_root true false false true [] None 5) = pm_out (Parse.parse_model c08w_fs2 c08w_root true false false true [] None (-1)) /\
+  pm_out (Parse.parse_model c08w_fs2 c08w_root true false false true [] None 999998) = pm_out (Parse.parse_model c08w_fs2 c08w_root true false false true [] None (-1)) /\
+  pm_out (Parse.parse_model c08w_fs2 c08w_root true false false true [] (Some (of_string "foam")) 999998) =
+    pm_out (Parse.parse_model c08w_fs2 c08w_root true false false true [] (Some (of_string "foam")) (-1)) /\
+  (exists txt, pm_out (Parse.parse_model c08w_fs2 c08w_root true false false true [] None 999998) = Some (Ok (of_string "/d/parsed.main.dict", txt)) /\
+               contains (of_string "// sub c;D 9;8") txt = true /\ contains (of_string "'x;1 y';") txt = true).
+Proof.
+  cbv zeta.
+  assert (H1 : counter_ok (-1)) by (unfold counter_ok; split; discriminate).
+  assert (H2 : counter_ok 5) by (unfold counter_ok; split; discriminate).
+  assert (H3 : counter_ok 999998) by (unfold counter_ok; split; discriminate).
+  assert (Hf : fs_ok c08w_fs2 = true) by (vm_compute; reflexivity).
+  assert (Hr : cleanb c08w_root = true) by (vm_compute; reflexivity).
+  assert (Hp : pm_side' c08w_fs2 c08w_root None (-1) = true) by (vm_compute; reflexivity).
+  assert (Hq : pm_side' c08w_fs2 c08w_root (Some (of_string "foam")) (-1) = true) by (vm_compute; reflexivity).
+  assert (Hw : write_sd_side' false (c08w_sd (read_plain c08w_fs2 c08w_root true true (-1))) = true) by (vm_compute; reflexivity).
+  refine (conj Hf (conj Hr (conj _ (conj Hp (conj Hq (conj _ (conj Hw (conj (C08_write_sd_counter_independent_weak _ _ _ _ _ _ _ Hw) (conj _
+         (conj (C08_parse_counter_independent_written_weak _ _ _ _ _ H1 H2 Hf Hr Hp)
+         (conj (C08_parse_counter_independent_written_weak _ _ _ _ _ H1 H3 Hf Hr Hp)
+         (conj (C08_parse_counter_independent_written_weak _ _ _ _ _ H1 H3 Hf Hr Hq) _)))))))))))); try (vm_compute; reflexivity).
+  eexists. split; [vm_compute; reflexivity|]. split; vm_compute; reflexivity.
+Qed.
+
+(* ---- findings --------------------------------------------------------------------------------------------------- *)
+(* (1) The side condition on the read result cannot be replaced by the reader's conditions on the source text (cleanb,
+   parse_side) -- the best case is FALSE.  insert_block_comments writes a block comment whose text is contained in the
+   block comments inserted so far as NOTHING (its duplicate test is a substring test): here "/*a*/" is contained in
+   "/* x /*a*/" (a comment opener inside a block comment).  With the empty replacement the characters on both sides of the
+   pattern are glued: the string 'LINECOMMENT00000/*a*/ /*a*/;1 ...' of the source becomes LINECOMMENT000001 LINECOMMENT000001;
+   and that IS the pattern of line comment 1 -- when the counter happened to give "// c2" the id 1, the string is written
+   as '// c2', under any other counter it stays.  The source text contains no placeholder name, the text written at the
+   fresh counter contains none either, and still the bytes depend on the counter.  Same behaviour of the library
+   (dictIO 0.4.1: DictReader.read + NativeFormatter.to_string with the counter preset to -1 and to 5). *)
+Example C08_write_after_read_source_finding :
+  let t := of_string "/* x /*a*/ /*a*/
+k 'LINECOMMENT00000/*a*/ /*a*/;1 LINECOMMENT00000/*a*/ /*a*/;1;';
+// c1
+// c2
+" in
+  let fs := [(c08w_root, FNative t)] in
+  let w c := match read_plain fs c08w_root false true c with Ok (s, _) => to_string_sd s | Raise _ => [] end in
+  cleanb t = true /\ parse_side (lex true (dir_of c08w_root) (-1) t) = true /\
+  cleanb (w (-1)%Z) = true /\
+  write_side' false (read_plain fs c08w_root false true (-1)) = false /\
+  match read_plain fs c08w_root false true (-1) with Ok (s, _) => psemi (native_body (sd_data s)) | Raise _ => true end = false /\
+  contains (of_string "k                             '// c2';") (w (-1)%Z) = true /\
+  contains (of_string "k                             'LINECOMMENT000001 LINECOMMENT000001;';") (w 5%Z) = true /\
+  w 5%Z <> w (-1)%Z /\ w 5%Z <> rename_str (5 - -1) (w (-1)%Z).
+Proof. cbv zeta. do 7 (split; [vm_compute; reflexivity|]). split; vm_compute; discriminate. Qed.
+
+(* (2) every conjunct of write_safe' is needed for the writer to commute with the renaming (hand-built SDicts, d = 7).
+   psemi of the body: C08_writer_safe_finding above (the pattern followed by digits), and the pattern followed by
+   semicolons and then a digit -- after block comment 1 (a duplicate of block comment 0) has been replaced by nothing, what
+   is left spells the pattern of line comment 1 followed by ;5 -- so "one or more semicolons" in psemi. *)
+Example C08_write_safe_weak_finding_semis :
+  let k i := (KS (placeholder w_BLOCKCOMMENT i), Leaf (SStr (placeholder w_BLOCKCOMMENT i))) in
+  let s := mkSD [k 0%N; (KS (of_string "x"), Leaf (SStr (of_string "LINECOMMENT000001 LINECOMMENT000001BLOCKCOMMENT000001 BLOCKCOMMENT000001;;5 y")))]
+                [(1%N, of_string "// LINECOMMENT00000")] [(0%N, of_string "/* h */"); (1%N, of_string "/* h */")] [] [] in
+  psemi (native_body (sd_data s)) = false /\
+  forallb (fun e => bc_ok' (snd e)) (sd_bc s) && forallb (fun e => idb e && lc_ok' (snd e)) (sd_lc s) = true /\
+  contains (of_string "'// LINECOMMENT000005 y'") (to_string_sd s) = true /\
+  contains (of_string "'// LINECOMMENT000005 y'") (to_string_sd (rename_sd 7 s)) = true /\
+  to_string_sd (rename_sd 7 s) <> rename_str 7 (to_string_sd s).
+Proof. cbv zeta. do 4 (split; [vm_compute; reflexivity|]). vm_compute. discriminate. Qed.
+
+(* psemi of a line comment text, of a block comment text, of a formatted include name: the text put in place carries the
+   pattern of line comment 1 followed by a digit *)
+Example C08_write_safe_weak_finding_texts :
+  let s1 := mkSD [(KS (of_string "LINECOMMENT000000"), Leaf (SStr (of_string "LINECOMMENT000000")))]
+                 [(0%N, of_string "// LINECOMMENT000001 LINECOMMENT000001;5"); (1%N, of_string "// LINECOMMENT00000")] [] [] [] in
+  let s2 := mkSD [(KS (of_string "BLOCKCOMMENT000000"), Leaf (SStr (of_string "BLOCKCOMMENT000000")))]
+                 [(1%N, of_string "// LINECOMMENT00000")] [(0%N, of_string "/* LINECOMMENT000001 LINECOMMENT000001;5 */")] [] [] in
+  let s3 := mkSD [(KS (of_string "INCLUDE000000"), Leaf (SStr (of_string "INCLUDE000000")))]
+                 [(1%N, of_string "// LINECOMMENT00000")] [] [(0%N, ([], of_string "LINECOMMENT000001 LINECOMMENT000001;5", []))] [] in
+  (psemi (native_body (sd_data s1)) = true /\ forallb (fun e : N * str => idb e && hd_ok (snd e)) (sd_lc s1) = true /\
+   forallb (fun e : N * str => psemi (snd e)) (sd_lc s1) = false /\
+   contains (of_string "// // LINECOMMENT000005") (to_string_sd (rename_sd 7 s1)) = true /\
+   to_string_sd (rename_sd 7 s1) <> rename_str 7 (to_string_sd s1)) /\
+  (psemi (native_body (sd_data s2)) = true /\ forallb (fun e : N * str => idb e && lc_ok' (snd e)) (sd_lc s2) = true /\
+   forallb (fun e : N * str => hd_ok (snd e) && last_ok (snd e)) (sd_bc s2) = true /\ forallb (fun e : N * str => psemi (snd e)) (sd_bc s2) = false /\
+   contains (of_string "/* // LINECOMMENT000005 */") (to_string_sd (rename_sd 7 s2)) = true /\
+   to_string_sd (rename_sd 7 s2) <> rename_str 7 (to_string_sd s2)) /\
+  (psemi (native_body (sd_data s3)) = true /\ forallb (fun e : N * str => idb e && lc_ok' (snd e)) (sd_lc s3) = true /\
+   forallb (fun e : N * include_entry => idb e) (sd_inc s3) = true /\ forallb (fun e => psemi (format_string (inc_name e))) (sd_inc s3) = false /\
+   contains (of_string "#include '// LINECOMMENT000005'") (to_string_sd (rename_sd 7 s3)) = true /\
+   to_string_sd (rename_sd 7 s3) <> rename_str 7 (to_string_sd s3)).
+Proof.
+  cbv zeta. repeat split; try (vm_compute; reflexivity); vm_compute; discriminate.
+Qed.
+
+(* hd_ok of a table text (it begins with semicolons and then a digit): put in place of its pattern directly after the
+   pattern of line comment 2, it completes that pattern to one followed by a digit.  (A text that begins with a digit:
+   C08_writer_safe_finding_head above; the last character of a block comment: C08_writer_safe_finding_last; ids of more than
+   six digits: C08_writer_safe_finding_ids.) *)
+Example C08_write_safe_weak_finding_head :
+  let s := mkSD [(KS (of_string "x"), Leaf (SStr (of_string "LINECOMMENT000002 LINECOMMENT000002LINECOMMENT000001 LINECOMMENT000001; y")))]
+                [(1%N, of_string ";5 x"); (2%N, of_string "// LINECOMMENT00000")] [] [] [] in
+  psemi (native_body (sd_data s)) = true /\ forallb (fun e : N * str => idb e && psemi (snd e)) (sd_lc s) = true /\
+  map (fun e : N * str => (head_ok (snd e), hd_ok (snd e))) (sd_lc s) = [(true, false); (true, true)] /\
+  contains (of_string "'// LINECOMMENT000005 x y'") (to_string_sd s) = true /\
+  contains (of_string "'// LINECOMMENT000005 x y'") (to_string_sd (rename_sd 7 s)) = true /\
+  to_string_sd (rename_sd 7 s) <> rename_str 7 (to_string_sd s).
+Proof. cbv zeta. do 5 (split; [vm_compute; reflexivity|]). vm_compute. discriminate. Qed.
+
+(* (3) what write_safe' still excludes although the writer commutes with the renaming: the condition is sufficient, not
+   necessary.  A string with the same block comment twice, a semicolon and a digit: the lexer turns it into the pattern of
+   block comment 0 followed by a digit; the replacement ends with a slash, nothing is glued. *)
+Example C08_write_safe_weak_not_necessary :
+  let t := of_string "k '/*a*/ /*a*/;1';
+" in
+  let fs := [(c08w_root, FNative t)] in
+  let s := c08w_sd (read_plain fs c08w_root false true (-1)) in
+  write_safe' s = false /\ psemi (native_body (sd_data s)) = false /\
+  contains (of_string "'BLOCKCOMMENT000000 BLOCKCOMMENT000000;1';") (native_body (sd_data s)) = true /\
+  contains (of_string "k                             '/*a*/1';") (to_string_sd s) = true /\
+  to_string_sd (rename_sd 6 s) = rename_str 6 (to_string_sd s) /\ rename_sd 6 s = c08w_sd (read_plain fs c08w_root false true 5).
+Proof. cbv zeta. repeat split; vm_compute; reflexivity. Qed.
